@@ -47,7 +47,9 @@ def _one(prop, t, repo, target_dir):
             # a repair may consist of several commits (newest first, comma separated): reverse them in that order
             p = None
             for commit in t['commit'].split(','):
-                diff = sh(['git', '-C', repo, 'show', '--format=', commit, '--', 'src'])
+                # `<hash>:<path>` reverses only the part of the repair that touches <path> (the rest was reshaped by a later repair)
+                commit, _, only = commit.partition(':')
+                diff = sh(['git', '-C', repo, 'show', '--format=', commit, '--', only or 'src'])
                 if diff.returncode != 0 or not diff.stdout.strip():
                     return dict(name=name, ok=True, skipped=True, detail='fix commit %s not found in %s' % (commit, repo))
                 p = subprocess.run(['patch', '-R', '-p1', '--no-backup-if-mismatch', '-s'], input=diff.stdout, text=True, cwd=d, stdout=subprocess.PIPE, stderr=subprocess.STDOUT)
